@@ -382,7 +382,17 @@ fn collect_rows<'a, P: gimli::LineProgram<R<'a>>>(rows: &mut gimli::LineRows<R<'
     let r = guard(|| loop {
         match rows.next_row() {
             Ok(Some((_, r))) => out.push(grow(r)),
-            Ok(None) => return None,
+            Ok(None) => {
+                // the end of the program is final
+                for _ in 0..2 {
+                    match rows.next_row() {
+                        Ok(None) => {}
+                        Ok(Some((_, r))) => return Some(format!("row {:?} yielded when polled again after the end of the program", grow(r))),
+                        Err(e) => return Some(format!("{:?} when polled again after the end of the program", e)),
+                    }
+                }
+                return None;
+            }
             Err(e) => return Some(format!("{:?}", e)),
         }
     });
@@ -621,7 +631,16 @@ pub fn check_program(ctx: &mut Ctx, c: &Case) {
         let r = guard(|| loop {
             match it.next_instruction(hd) {
                 Ok(Some(i)) => gi.push(gins(&i)),
-                Ok(None) => return None,
+                Ok(None) => {
+                    for _ in 0..2 {
+                        match it.next_instruction(hd) {
+                            Ok(None) => {}
+                            Ok(Some(i)) => return Some(format!("instruction {:?} yielded when polled again after the end", gins(&i))),
+                            Err(e) => return Some(format!("{:?} when polled again after the end", e)),
+                        }
+                    }
+                    return None;
+                }
                 Err(e) => return Some(format!("{:?}", e)),
             }
         });
